@@ -34,14 +34,14 @@ impl Ctx {
     }
 }
 
-fn node_value<TC: Configuration>(n: &TreeNode) -> AzksValue {
+pub fn node_value<TC: Configuration>(n: &TreeNode) -> AzksValue {
     if n.node_type == TreeNodeType::Leaf {
         AzksValue(TC::hash_leaf_with_commitment(n.hash, n.last_epoch).0)
     } else {
         n.hash
     }
 }
-fn child_elem<TC: Configuration>(m: &HashMap<NodeLabel, TreeNodeWithPreviousValue>, c: Option<NodeLabel>) -> AzksElement {
+pub fn child_elem<TC: Configuration>(m: &HashMap<NodeLabel, TreeNodeWithPreviousValue>, c: Option<NodeLabel>) -> AzksElement {
     match c {
         None => AzksElement { label: TC::empty_label(), value: TC::empty_node_hash() },
         Some(l) => {
@@ -52,7 +52,7 @@ fn child_elem<TC: Configuration>(m: &HashMap<NodeLabel, TreeNodeWithPreviousValu
 }
 
 /// the path of node labels from the root to the deepest node whose label is a prefix of (or equal to) x
-fn path_to(m: &HashMap<NodeLabel, TreeNodeWithPreviousValue>, x: &NodeLabel) -> Vec<NodeLabel> {
+pub fn path_to(m: &HashMap<NodeLabel, TreeNodeWithPreviousValue>, x: &NodeLabel) -> Vec<NodeLabel> {
     let xb = bits_of(x);
     let mut cur = NodeLabel::root();
     let mut path = vec![cur];
@@ -371,3 +371,29 @@ pub fn run(seed: u64, tier: u32) -> Ctx {
 
 #[allow(dead_code)]
 fn _unused(_: Direction) {}
+
+/// non-membership proofs for `x` anchored at every node on the path from the root to the deepest node
+/// whose label is a prefix of `x` (the honest anchor is the last one when x is not a member)
+pub async fn anchored_nonmembership<TC: Configuration>(
+    azks: &akd::Azks,
+    st: &akd::storage::manager::StorageManager<akd::storage::memory::AsyncInMemoryDatabase>,
+    m: &HashMap<NodeLabel, TreeNodeWithPreviousValue>,
+    x: &NodeLabel,
+) -> Vec<NonMembershipProof> {
+    let mut out = vec![];
+    for a in path_to(m, x) {
+        let an = &m[&a].latest_node;
+        if an.node_type == TreeNodeType::Leaf {
+            continue;
+        }
+        if let Ok(amp) = azks.get_membership_proof::<TC, _>(st, a).await {
+            out.push(NonMembershipProof {
+                label: *x,
+                longest_prefix: a,
+                longest_prefix_children: [child_elem::<TC>(m, an.left_child), child_elem::<TC>(m, an.right_child)],
+                longest_prefix_membership_proof: amp,
+            });
+        }
+    }
+    out
+}
